@@ -15,8 +15,10 @@ type P struct{}
 
 func (P) Rule() string {
 	return "each case is one N-node simulation (N in 4..7, unequal powers, Byzantine validators below 1/3 of the power) of real consensus.ConsensusState machines " +
-		"under a seeded scheduler profile (sync, async reordering with early timeouts, lossy+duplicating, byz = equivocating votes and conflicting proposals); " +
-		"the merged history of signed votes and commits is checked per height against the voting discipline d0-d4 and agreement; " +
+		"under a seeded scheduler profile (sync, async reordering with early timeouts, lossy+duplicating, byz = equivocating votes and conflicting proposals, " +
+		"late = prevotes held back until the receiver is two rounds further, lockscript = directed schedule: an old-round polka completes at a node locked in a later round); " +
+		"the merged history of signed votes and commits is checked per height against the voting discipline d0-d4 and agreement (hist ops), and EVERY input handled by every correct node " +
+		"(proposal, block part, vote, timeout, peer +2/3 claim) is replayed through the Lean node model: state line and outputs after every single step are compared (ns ops; stats ns-ev:* = event kinds, ns-trans:* = step->step transitions); " +
 		"non-trivial = at least one height committed by every live correct node AND (a round > 0 was reached or a lock was observed or Byzantine messages were injected); distinct = distinct parameters"
 }
 
